@@ -296,6 +296,11 @@ def qmarkAccepts (e : QExpr) (n : Nat) : Bool := e.phsRendered == n
     `counts` = placeholders per generated statement. -/
 def explodeAccepts (counts : List Nat) (n : Nat) : Bool := counts.all (· == n)
 
+/-- `executemany` (`cursor.py:360-377`): one `execute` per parameter set, in order — every row takes the same path
+    as a single `execute` (client-side substitution, or the engine-side binding incl. the re-binding of big ints) -/
+def executeMany (style : Style) (c : List Char) (rows : List Args) : List (Fmt × Bool) :=
+  cursorRun style (rows.map fun a => (c, a))
+
 /-- the same parameter list bound again and again (the caller re-uses its dict / tuple / list object) -/
 def rebind (style : Style) (c : List Char) (a : Args) (times : Nat) : List (Fmt × Bool) :=
   cursorRun style (List.replicate times (c, a))
